@@ -10,11 +10,11 @@ LEVEL = "fault_enumeration"
 RULE = ("exception codes 0..255 x {read, write, write-multi} x {udp-rtu, tcp} x keep-alive x preceded by j in 0..R "
         "dropped transmissions x exception delivered promptly or half a timeout late x entry through the protocol-level "
         "request and through read_sensor/write_setting('modbus-N'); as the second request on a kept-alive object (with and without "
-        "yielding in between); after lone fragments of every length; complete enumeration of the codes; distinct = distinct "
+        "yielding in between); after lone fragments of every length; Modbus/TCP exception frames with a wrong MBAP length field; complete enumeration of the codes; distinct = distinct "
         "(transport, keep-alive, command kind, code, j, delay, entry) tuples")
 ASSUMPTIONS = ["reason texts are the standard Modbus exception names (table copied from the specification into refcodec)",
                "virtual clock: 'at once' means zero virtual time between delivery of the exception frame and the return"]
-MUST = ["second_request_rejected", "rejected_after_lone_fragment", "rejected_udp", "rejected_tcp", "after_drops", "delayed_exception", "unknown_code", "public_entry"]
+MUST = ["tcp_exception_with_wrong_mbap_length", "second_request_rejected", "rejected_after_lone_fragment", "rejected_udp", "rejected_tcp", "after_drops", "delayed_exception", "unknown_code", "public_entry"]
 EXHAUSTIVE = {"quick": True, "thorough": True}
 EPS = 1e-6
 
@@ -52,6 +52,15 @@ def scenario_fragment_first(transport, ka, T, R, code, k):
     return sc
 
 
+def scenario_mbap(ka, T, R, kind, code, j, mlen):
+    """Modbus/TCP: the exception frame carries a wrong MBAP length (the library ignores that field on purpose - GoodWe firmware
+    copies the request's length into answers); it is still an exception answer and must reject at once."""
+    sc = scenario("tcp", ka, T, R, kind, code, j, 0.0, "protocol")
+    sc["script"] = ["drop"] * j + [["excmbap", code, mlen]]
+    sc["mbap"] = mlen
+    return sc
+
+
 def check_run(sc, run, part: Part):
     tr = sc["transport"]
     out = []
@@ -65,6 +74,8 @@ def check_run(sc, run, part: Part):
     txs = [(i, e) for i, e in enumerate(run.events) if e[1] == "tx" and i > start]
     if sc.get("second"):
         ctx += " as the second request on the same object"
+    if sc.get("mbap"):
+        ctx += f" with MBAP length field {sc['mbap']} instead of 3"
     if sc.get("frag_first"):
         ctx += f" after a lone {sc['frag_first']}-byte fragment answered transmission 1"
     if rec["outcome"] != "RequestRejectedException":
@@ -96,6 +107,8 @@ def check_run(sc, run, part: Part):
             part.count("second_request_rejected")
         if sc.get("frag_first"):
             part.count("rejected_after_lone_fragment")
+        if sc.get("mbap"):
+            part.count("tcp_exception_with_wrong_mbap_length")
     return out
 
 
@@ -103,7 +116,7 @@ def run_case(sc, part):
     run = engine.run_scenario(sc, quiesce=False)
     part.evaluations += 1
     vs = check_run(sc, run, part)
-    part.see(repr((sc["transport"], sc["keep_alive"], sc["kind"], sc["code"], sc["j"], sc["delay"], sc["entry"], sc.get("second"), sc.get("frag_first"))))
+    part.see(repr((sc["transport"], sc["keep_alive"], sc["kind"], sc["code"], sc["j"], sc["delay"], sc["entry"], sc.get("second"), sc.get("frag_first"), sc.get("mbap"))))
     for key, msg in vs:
         part.violate(key, msg, {"scenario": sc, "calls": run.calls, "events": engine.jsonable_events(run.events, 60)})
     if part.evaluations % 701 == 3:
@@ -137,6 +150,10 @@ def run_shard(spec):
             if code % 16 == 2 or code in (1, 3, 4, 6):
                 for gap, delay in ((0.5 * T, 0.8 * T), (0.25 * T, 0.9 * T), (None, 0.5 * T), (None, 0.0)):
                     run_case(scenario_second(spec["transport"], spec["ka"], T, R, spec["kind"], code, gap, delay), part)
+                if spec["transport"] == "tcp":
+                    for mlen in (6, 11, 0, 2, 4, 255):
+                        for j in (0, R):
+                            run_case(scenario_mbap(spec["ka"], T, R, spec["kind"], code, j, mlen), part)
                 if spec["kind"] == "read":
                     # (read of 3 registers: RTU answer = 13 bytes, Modbus/TCP answer = 15 bytes; k stays below the full frame)
                     for k in range(5 if spec["transport"] == "udp" else 9, 13 if spec["transport"] == "udp" else 15):
